@@ -145,7 +145,8 @@ Definition gen_routing_info (sp : oracle) (c : compiled) : res rinfo :=
                | SRC => mapM (fun s => do rs <- mapM (gen_route sp c s) (c_nis c); Ok (cn_name s, rs)) (c_nis c)
                | _ => Ok []
                end;
-  let rbits := fold_left Z.max (flat_map (fun nr => map route_bits_of (snd nr)) routes) 0 in
+  (* gen_routes starts from one bit: a route word is never zero bits wide *)
+  let rbits := fold_left Z.max (flat_map (fun nr => map route_bits_of (snd nr)) routes) 1 in
   let off := match xy with Some (_, (_, (_, o))) => Some o | None => None end in
   let sam := gen_sam c off in
   (* RouteMap(name="sam", rules=...) runs the overlap check *)
